@@ -18,7 +18,8 @@ import typing
 from typing import Any, Dict, List, Optional
 
 from adaptix import DebugTrail, ExtraForbid, Retort, name_mapping
-from adaptix.conversion import ConversionRetort, get_converter, impl_converter, link
+from adaptix import P
+from adaptix.conversion import ConversionRetort, get_converter, impl_converter, link, link_constant, link_function
 
 from mc import codec, parallel
 from mc.matrix import MODES, mode_name
@@ -354,6 +355,14 @@ class BadRepr:
         return "<not an expression>"
 
 
+CONSTANTS = [*KEYS, b"a\nb", b"'\"", bytearray(b"\n"), "a\\nb", "tail\\", 0, True, None, 1.5, float("inf"), 1j, Color.RED, BadRepr(),
+             CodeRepr(), [1], (1,), ("a\nb",), {"k": "a\nb"}, frozenset({1}), object, len, ..., NotImplemented, range(3), b""]
+# names the generators build themselves: closure names, numbered constants, the g_ prefix of captured globals
+DERIVED_NAMES = ["D", "S", "DI", "SI", "g_D", "g_S", "g_DI", "coerce_S_to_D", "coerce_SI_to_DI", "constant_0", "constant_1", "func_0",
+                 "func_1", "accessor_0", "g_constant_0", "g_func_0", "g_f", "g_g_D", "convert_S_to_D", "<lambda>", "a b", "1x",
+                 "__debug__", "f"]
+
+
 def leg_converter(items, report):
     for kind, value in items:
         case = {"leg": "converter", "kind": kind, "value": value if isinstance(value, str) else repr(value)}
@@ -402,6 +411,52 @@ def leg_converter(items, report):
                 out = conv(src(1))
                 ok = (out.a == 1 and (out.extra is value or (type(out.extra) is type(value) and out.extra == value))
                       and inspect.signature(conv) == inspect.signature(stub))
+            elif kind == "link_constant":
+                inner_s = dataclasses.make_dataclass("SI", [("n", int)])
+                inner_d = dataclasses.make_dataclass("DI", [("n", int), ("k", Any)])
+                src = dataclasses.make_dataclass("S", [("a", int), ("i", inner_s)])
+                dst = dataclasses.make_dataclass("D", [("a", int), ("i", inner_d), ("z", Any)])
+                conv = get_converter(src, dst, recipe=[link_constant(P[dst].z, value=value), link_constant(P[inner_d].k, value=value)])
+                out = conv(src(1, inner_s(2)))
+                same = lambda got: got is value or (type(got) is type(value) and got == value)  # noqa: E731
+                ok = (out.a, out.i.n) == (1, 2) and same(out.z) and same(out.i.k)
+            elif kind == "link_function_name":
+                inner_s = dataclasses.make_dataclass("SI", [("n", int)])
+                inner_d = dataclasses.make_dataclass("DI", [("n", int), ("k", Any)])
+                src = dataclasses.make_dataclass("S", [("a", int), ("i", inner_s)])
+                dst = dataclasses.make_dataclass("D", [("a", int), ("i", inner_d), ("y", Any), ("z", Any)])
+                marker = object()
+
+                def fn(s):
+                    return ("fn", s.a)
+
+                def fn2(s):
+                    return ("fn2", s.n)
+                fn.__name__ = fn.__qualname__ = fn2.__name__ = fn2.__qualname__ = value
+                conv = get_converter(src, dst, recipe=[
+                    link_function(fn, P[dst].y), link_constant(P[dst].z, value=marker),
+                    link_function(fn2, P[inner_d].k),
+                ])
+                out = conv(src(1, inner_s(2)))
+                ok = (out.a, out.i.n, out.y, out.i.k) == (1, 2, ("fn", 1), ("fn2", 2)) and out.z is marker
+            elif kind == "model_name":
+                inner_s = dataclasses.make_dataclass("SI", [("n", int)])
+                inner_d = dataclasses.make_dataclass("DI", [("n", int), ("k", Any)])
+                src = dataclasses.make_dataclass("S", [("a", int), ("i", inner_s)])
+                dst = dataclasses.make_dataclass("D", [("a", int), ("i", inner_d), ("y", Any), ("z", Any)])
+                which, name = value
+                for c in {"dst": (dst, inner_d), "src": (src, inner_s), "both": (src, dst, inner_s, inner_d)}[which]:
+                    c.__name__ = c.__qualname__ = name
+                marker, marker2 = object(), object()
+
+                def f(s):
+                    return ("f", s.a)
+                conv = get_converter(src, dst, recipe=[
+                    link_function(f, P[dst].y), link_constant(P[dst].z, value=marker), link_constant(P[inner_d].k, value=marker2),
+                ])
+                out = conv(src(1, inner_s(2)))
+                ok = ((out.a, out.i.n, out.y) == (1, 2, ("f", 1)) and out.z is marker and out.i.k is marker2
+                      and type(out) is dst and type(out.i) is inner_d)
             else:
                 raise ValueError(kind)
         except Exception as e:  # noqa: BLE001
@@ -446,6 +501,9 @@ def run(tier):
     conv_items += [("function_name", x) for x in ids]     # keywords are not legal function names and are left out
     conv_items += [("param_name", x) for x in ids if x not in ("s", "self")]
     conv_items += [("stub_default", v) for v in (0, "x", None, 1.5, Color.RED, BadRepr(), CodeRepr(), [1], (1,), object, len)]
+    conv_items += [("link_constant", v) for v in CONSTANTS]
+    conv_items += [("link_function_name", x) for x in ids + DERIVED_NAMES + CLASS_NAMES]
+    conv_items += [("model_name", (w, x)) for w in ("dst", "src", "both") for x in ids + DERIVED_NAMES + CLASS_NAMES]
     shards += [("conv", conv_items[i::16], tier) for i in range(16) if conv_items[i::16]]
     report.count("identifier_pairs", len(pairs))
     report.count("keys", len(KEYS))
